@@ -314,7 +314,7 @@ def c13_c(ctx: Ctx):
                 else:
                     out.append(ctx.viol(R, fi, n, f"{fi.qual.split(':')[-1]} removes files through the proxy: destination-only files must stay untouched"))
     dp = ctx.prog.cls("signac.sync:_DocProxy")
-    bad = [m for m in dp.methods if m in ("__delitem__", "pop", "popitem")]
+    bad = [m for m in dp.methods if m in ("__delitem__", "pop", "popitem", "__getattr__", "__getattribute__")]
     if bad:
         out.append(ctx.viol(R, dp.methods[bad[0]], dp.methods[bad[0]].node, f"_DocProxy offers {bad}: destination-only document keys can be deleted"))
     else:
